@@ -185,6 +185,23 @@ def check_blocks(case, ctx):
     n, nch = case["n"], b["nchans"]
     rng = np.random.default_rng(case["seed"])
     x = rng.integers(0, 256, size=(nch, n)).astype(np.float32)
+    if case["seed"] % 3 == 1:
+        # data as baseline-subtracted or partly dead observations have them: signed values, channels that sum to exactly
+        # zero without being blank (alternating +k/-k plus a marker), blank channels, constant channels
+        x = rng.integers(-40, 41, size=(nch, n)).astype(np.float32)
+        for c in range(nch):
+            kind = int(rng.integers(0, 4))
+            if kind == 0:
+                alt = np.where(np.arange(n) % 2 == 0, 7.0, -7.0)
+                if n % 2:
+                    alt[-1] = 0.0
+                x[c] = alt
+                if n >= 4:
+                    x[c, 1], x[c, 3] = x[c, 1] - 3.0, x[c, 3] + 3.0  # still zero-sum, no longer periodic
+            elif kind == 1:
+                x[c] = 0.0
+            elif kind == 2:
+                x[c] = float(rng.integers(-5, 6))
     hdr = mk_header(b, n)
     # read_block hands out transposed (F-ordered) views: the block methods must not depend on the memory layout
     dm = dm_for_span(b, case["span"], case["sign"])
